@@ -326,7 +326,7 @@ class Gen:
         if c < 0.50:
             return ["negative", ["absolute", x]]
         if c < 0.60:
-            return ["sqrt", ["absolute", x]]
+            return ["sqrt", ["absolute", x]] if ty != "i" else ["absolute", ["negative", x]]
         if c < 0.70:
             return ["add", ["absolute", x], self.const(ty, ["i", 1])]
         if c < 0.78:
@@ -347,8 +347,11 @@ class Gen:
         if d <= 0 or self.budget <= 0 or r.random() < 0.12:
             return self.sym(ty) if r.random() < 0.88 - 0.28 * self.w_fold else self.const(ty)
         c = r.random()
+        if ty == "i":
+            # integer-typed expressions: only kinds that are closed over the integers
+            c = r.choice([0.1, 0.1, 0.1, 0.4, 0.55, 0.7, 0.9])
         if c < 0.34:
-            k = r.choice(["add", "subtract", "multiply", "divide", "add", "multiply", "subtract"])
+            k = r.choice(["add", "subtract", "multiply", "divide", "add", "multiply", "subtract"] if ty != "i" else ["add", "subtract", "multiply"])
             x = self.num(d - 1, ty)
             u = r.random()
             if u < 0.10:
@@ -361,7 +364,7 @@ class Gen:
                 y = self.num(d - 1, ty)
             e = [k, x, y] if r.random() < 0.7 else [k, y, x]
         elif c < 0.52:
-            k = r.choice(["negative", "absolute", "negative", "absolute", "sqrt", "square", "sign", "positive"])
+            k = r.choice(["negative", "absolute", "negative", "absolute", "sqrt", "square", "sign", "positive"] if ty != "i" else ["negative", "absolute", "square", "positive"])
             x = self.num(d - 1, ty)
             if r.random() < 0.25 and k in ("negative", "absolute", "sign"):
                 x = [k, x]
@@ -400,7 +403,8 @@ class Gen:
                 e = [r.choice(OPAQUE2), self.num(d - 1, ty), self.num(d - 1, ty)]
         elif c < 0.88 + 0.06 * self.w_fold:
             # constant sub-computations (folding)
-            k = r.choice(["add", "subtract", "multiply", "minimum", "maximum", "sqrt", "square", "negative", "absolute", "sign", "divide"])
+            k = r.choice(["add", "subtract", "multiply", "minimum", "maximum", "sqrt", "square", "negative", "absolute", "sign", "divide"]
+                         if ty != "i" else ["add", "subtract", "multiply", "minimum", "maximum", "negative", "absolute"])
             a, b = self.const(ty), self.const(ty)
             e = [k, a] if k in ("sqrt", "square", "negative", "absolute", "sign") else [k, a, b]
         else:
